@@ -145,10 +145,101 @@ theorem statement_spec (cfg : Cfg) (th : Nat → Sev) (sev : Sev) (tag : Option 
         simp only
         rw [h1, h3, hobj, g1, g2]; rfl
 
+/-! ### two streams open at the same time -/
+
+def enabled (cfg : Cfg) (th : Nat → Sev) (sev : Sev) : Bool :=
+  !(decide (sev < cfg.minSev)) && evalF th cfg.filter sev
+
+/-- the callables of two interleaved item lists, in the order they are streamed; a disabled stream
+calls none of its callables -/
+def lazyMerge (ea eb : Bool) : List Item → List Item → List Event
+  | [], js => if eb then lazyCalls js else []
+  | i :: is, [] => if ea then lazyCalls (i :: is) else []
+  | i :: is, j :: js =>
+    (if ea then lazyCalls [i] else []) ++ (if eb then lazyCalls [j] else []) ++ lazyMerge ea eb is js
+
+def emit (cfg : Cfg) (on : Bool) (sev : Sev) (tag : Option Str) (items : List Item) : List Event :=
+  if on then .fmt sev tag (texts items) :: (List.range cfg.members).map fun k => .sink k sev tag (texts items)
+  else []
+
+/-- what two overlapping statements must produce: the callables as they are streamed, then the record
+of the stream declared last, then the record of the stream declared first — each with its *own*
+severity, tag and text -/
+def specOverlap (cfg : Cfg) (th : Nat → Sev) (sa : Sev) (ta : Option Str) (is : List Item)
+    (sb : Sev) (tb : Option Str) (js : List Item) : List Event :=
+  lazyMerge (enabled cfg th sa) (enabled cfg th sb) is js ++
+    emit cfg (enabled cfg th sb) sb tb js ++ emit cfg (enabled cfg th sa) sa ta is
+
+theorem lchain_dead' (o : Obj) (items : List Item) (hb : o.buf = none) :
+    lchain o items = (o, []) := by
+  induction items with
+  | nil => rfl
+  | cons it rest ih => simp [lchain, insert_dead o it hb, ih]
+
+/-- the state of a stream: enabled streams carry their text so far, disabled ones nothing -/
+def objOf (on : Bool) (sev : Sev) (tag : Option Str) (b : Str) : Obj :=
+  if on then ⟨true, sev, tag, some b⟩ else ⟨false, sev, tag, none⟩
+
+theorem insert_objOf (on : Bool) (sev : Sev) (tag : Option Str) (b : Str) (it : Item) :
+    insertInto (objOf on sev tag b) it =
+      (objOf on sev tag (b ++ texts [it]), if on then lazyCalls [it] else []) := by
+  cases on <;> cases it <;> simp [objOf, insertInto, texts, lazyCalls]
+
+theorem lchain_objOf (on : Bool) (sev : Sev) (tag : Option Str) (b : Str) (items : List Item) :
+    lchain (objOf on sev tag b) items =
+      (objOf on sev tag (b ++ texts items), if on then lazyCalls items else []) := by
+  cases on with
+  | true =>
+    have := lchain_live sev tag b items
+    simp only [objOf, if_true]
+    exact Prod.ext this.2 this.1
+  | false =>
+    simp only [objOf, Bool.false_eq_true, if_false]
+    exact lchain_dead' _ _ rfl
+
+theorem interleave2_spec (ea eb : Bool) (sa sb : Sev) (ta tb : Option Str) (ba bb : Str)
+    (is js : List Item) :
+    interleave2 (objOf ea sa ta ba) (objOf eb sb tb bb) is js =
+      (objOf ea sa ta (ba ++ texts is), objOf eb sb tb (bb ++ texts js), lazyMerge ea eb is js) := by
+  induction is generalizing js ba bb with
+  | nil =>
+    simp only [interleave2, lchain_objOf, lazyMerge, texts, List.map_nil, List.flatten_nil, List.append_nil]
+  | cons i is ih =>
+    cases js with
+    | nil =>
+      simp only [interleave2, lchain_objOf, lazyMerge]
+      simp [texts]
+    | cons j js =>
+      simp only [interleave2, insert_objOf, ih, lazyMerge]
+      simp [texts, List.append_assoc]
+
+theorem destroy_objOf (cfg : Cfg) (on : Bool) (sev : Sev) (tag : Option Str) (items : List Item) :
+    destroy cfg (objOf on sev tag ([] ++ texts items)) = emit cfg on sev tag items := by
+  cases on <;> simp [objOf, destroy, emit]
+
+/-- **Overlapping statements**: two streams that are alive at the same time (same severity or not) do
+not share anything: each delivers exactly its own items, once, iff it is enabled. -/
+theorem overlap_spec (cfg : Cfg) (th : Nat → Sev) (sa : Sev) (ta : Option Str) (is : List Item)
+    (sb : Sev) (tb : Option Str) (js : List Item) :
+    overlap cfg th sa ta is sb tb js = specOverlap cfg th sa ta is sb tb js := by
+  have hmk : ∀ sev tag, (if sev < cfg.minSev then (⟨false, sev, tag, none⟩ : Obj) else construct cfg th sev tag)
+      = objOf (enabled cfg th sev) sev tag [] := by
+    intro sev tag
+    unfold enabled construct objOf
+    by_cases h1 : sev < cfg.minSev
+    · simp [h1]
+    · by_cases h2 : evalF th cfg.filter sev = true
+      · simp [h1, h2]
+      · have : evalF th cfg.filter sev = false := by simpa using h2
+        simp [h1, this]
+  unfold overlap specOverlap
+  simp only [hmk, interleave2_spec, destroy_objOf]
+
 def specRun (cfg : Cfg) : (Nat → Sev) → List Op → List Event
   | _, [] => []
   | th, .setThr n s :: rest => specRun cfg (fun k => if k = n then s else th k) rest
   | th, .stmt sev tag items _ :: rest => specStatement cfg th sev tag items ++ specRun cfg th rest
+  | th, .overlap sa ta is sb tb js :: rest => specOverlap cfg th sa ta is sb tb js ++ specRun cfg th rest
 
 /-- **Histories**: for every sequence of statements and threshold changes the trace is the
 concatenation of the statements' specified events, in program order — the syntactic form of each
@@ -160,6 +251,7 @@ theorem run_spec (cfg : Cfg) (th : Nat → Sev) (ops : List Op) : run cfg th ops
     cases op with
     | setThr n s => simp only [run, specRun]; exact ih _
     | stmt sev tag items named => simp only [run, specRun, statement_spec, ih]
+    | overlap sa ta is sb tb js => simp only [run, specRun, overlap_spec, ih]
 
 /-- exactly once: an enabled statement yields exactly one `fmt` event -/
 theorem exactly_once (cfg : Cfg) (th : Nat → Sev) (sev : Sev) (tag : Option Str) (items : List Item)
